@@ -139,6 +139,8 @@ def run_case(seed):
     finest = pf.nlevels - 1
     for k in range(4):
         vkind, variables = gen_vars(rng, keys)
+        # (strings as they come from a command line or a file: equal to, but not the same objects as, the literals of the source)
+        variables = [(v + ' ')[:-1] for v in variables]
         variables = glob_like_unknowns(random.Random(seed * 271 + k), keys, variables)
         if any(v not in keys and v not in ('all', 'nope') for v in variables):
             count("unknown name looking like a shell pattern of a field")
@@ -244,6 +246,43 @@ def run_case(seed):
     return out
 
 
+def big_box_case(seed):
+    """a box above 8 MiB (64^3 cells, five fields) strained to two and to all of its fields: oracle only (the list-based
+    model does not take megabytes)"""
+    from amr_kitchen.colander.colander import Colander
+    out = dict(evals=0, keys=[core.khash('big-box', seed)], dist={'case=one box of 10 MiB': 1}, samples=[], violations=[], disagreements=[])
+    r = random.Random(seed)
+    pf = gen.PF()
+    pf.ndims, pf.fields, pf.time, pf.step = 3, ['density', 'temp', 'Y(OH)', 'mag_vort', 'pressure'], 0.5, 3
+    pf.geo_low, pf.dx0, pf.n0, pf.bf = [0.0, -1.0, 2.0], [0.125, 0.25, 0.125], [64, 64, 64], 2
+    lev = gen.Level()
+    lev.boxes = [((0, 0, 0), (63, 63, 63))]
+    lev.data = [np.asfortranarray(np.random.default_rng(r.getrandbits(32)).uniform(-100.0, 100.0, (64, 64, 64, 5)))]
+    lev.files = [('Cell_D_00000', [0])]
+    pf.levels = [lev]
+    pf.meta = dict(case='big box', geo='exact/aniso', layouts=['onefile'])
+    keys = list(pf.fields)
+    path = core.scratch_dir(f"c05_big_{seed}")
+    gen.write_plotfile(pf, path)
+    for variables in (r.sample(keys, 2), ['all'], sorted(r.sample(keys, 3), key=keys.index)):
+        outp = core.scratch_dir(f"c05_big_{seed}_out")
+        out['evals'] += 1
+        desc = dict(seed=seed, case_fn='big_box_case', variables=variables, meta=pf.meta, fields=keys)
+        res = core.outcome(lambda: Colander(plotfile=path, limit_level=None, output=outp, variables=list(variables)).strain())
+        kept, names = expected_contents(pf, keys, variables, 0)
+        if res[0] != 'ok':
+            bad = 'straining raised: ' + res[1]
+        else:
+            try:
+                bad = check_contents(oracle.contents_of_image(oracle.read_image(outp)), pf, keys, kept, names, 0)
+            except (ValueError, IndexError, KeyError) as e:
+                bad = f'output is not a well-formed plotfile: {e}'
+        if bad:
+            out['violations'].append(dict(desc, kind='wrong-output', what=bad))
+            break
+    return out
+
+
 def two_dirs_colander(seed):
     return core.two_dirs_case(PID, 'colander', seed)
 
@@ -263,6 +302,8 @@ def run(tier, seed):
     rep.obligation('correspondence: Writers.Colander.colander = output directory of Colander.strain (binary files byte for byte, '
                    'level headers token for token, global header with floats by value)',
                    not any(v[0].get('kind') in ('model-vs-impl', 'model-taste') for v in rep.violations))
+    for r in core.run_cases(big_box_case, [seed * 100000 + 5900]):
+        rep.merge(r)
     for r in core.run_cases(two_dirs_colander, [seed * 100000 + 99000 + i for i in range(1 if tier == 'quick' else 5)]):
         rep.merge(r)
     rep.obligation('correspondence: Abstract.pf_disk of the abstract plotfile = the directory on disk the implementation reads',
